@@ -8,7 +8,7 @@ import threading
 import types
 
 from ..core import lean
-from ..core.baton import Sched, BLoop
+from ..core.baton import Sched, BLoop, Hang
 from ..core.common import Outcome, fingerprint
 from ..core.par import run_chunks, mark
 
@@ -40,6 +40,20 @@ RULE = ('2..3 caller threads, each with its own loop, call ensure_aw(aw, T) on o
         'pool, the spin in loop_in_thread; the label trace is replayed on the Lean model; monitor: result / exception '
         'identity, loop identity inside the awaitable, never two threads running T, handshake of loop_in_thread, every '
         'call completes (hang detector); distinct = distinct (scenario, schedule)')
+
+
+def make_exc(c, which):
+    """The error object a raising awaitable raises (the caller must receive this very object)."""
+    import concurrent.futures as cf
+    if which == 1:
+        return cf.CancelledError(f'a cancelled pool job asked for its result in awaitable {c}')
+    if which == 2:
+        e = TimeoutError(f'awaitable {c} timed out')
+        e.__cause__ = asyncio.CancelledError()          # as asyncio.wait_for raises it
+        return e
+    if which == 3:
+        return cf.InvalidStateError(f'awaitable {c}')
+    return Boom(c)
 
 
 class Boom(Exception):
@@ -232,7 +246,10 @@ def gen_case(rng):
                     'kind': (rng.choice(['coro', 'coro', 'task']) if mode == 'idle' else
                              # a future of the target that was already resolved when the target was closed
                              rng.choice(['coro', 'donefut']) if mode == 'closed' else 'coro'),
-                    'start': rng.choice([0, 0, 1, 2])})
+                    'start': rng.choice([0, 0, 1, 2]),
+                    # which error a raising awaitable raises: the library's bridges (executor future, thread-safe
+                    # future, wrap_future) carry some classes over as a different class or as a copy
+                    'exc': rng.choice([0, 0, 1, 2, 3])})
     # the stop function of loop_in_thread called by two threads at once: each call returns only once the loop stopped
     return {'mode': mode, 'aws': aws, 'stop2': mode == 'forever' and rng.random() < 0.5}
 
@@ -283,7 +300,7 @@ def run_case(case, seed, pct=0, choices=None):
                 await asyncio.sleep(spec['dur'])
             E.labels.append(f'aw:{c}')
             if spec['raise']:
-                raise info[c].setdefault('exc', Boom(c))
+                raise info[c].setdefault('exc', make_exc(c, spec.get('exc', 0)))
             return info[c].setdefault('val', ('value', c))
         if spec['kind'] == 'task':
             E.labels.append(f'pre:{c}')
@@ -312,9 +329,13 @@ def run_case(case, seed, pct=0, choices=None):
                     res[c] = ('runtime', str(e))
                     if hasattr(aw, 'close'):
                         aw.close()
+                except Hang:
+                    raise                   # this run was aborted by the scheduler: keep unwinding
+                except (Exception, asyncio.CancelledError) as e:
+                    res[c] = ('boom', e) if e is info.get(c, {}).get('exc') else ('other', e)
                 finally:
                     E.dispatching[f'C{c}'] = False
-                if res[c][0] in ('ok', 'boom'):
+                if res[c][0] in ('ok', 'boom', 'other'):
                     E.labels.append(f'ret:{c}')
             try:
                 if loop is T:
